@@ -15,8 +15,8 @@ from . import grouprules as gr
 
 def run(ctx) -> None:
     ctx.rule("a.arith-kernels", "every arithmetic kernel maps a None operand to None: `None if <x is None [or y is None]> else op(...)` "
-                                "(comprehension form) or `if ... is None: append(None) else: append(op)` (loop form)", 9)
-    ctx.rule("a.compare-kernels", "every comparison kernel maps a None operand to False (as C07.a)", 8)
+                                "(comprehension form) or `if ... is None: append(None) else: append(op)` (loop form)", 5)
+    ctx.rule("a.compare-kernels", "every comparison kernel maps a None operand to False (as C07.a)", 2)
     ctx.rule("b.reductions", "sum, mean, stdev, any, all, max, min reduce self._underlying filtered by `is not None`; counts are "
                              "taken of the filtered values; no value -> None (mean/min/max/stdev), 0 (sum)", 7)
     ctx.rule("c.aggregators", "each of the 12 group aggregators (aggregate x6, window x6) filters None, uses the textbook reducer, "
